@@ -90,10 +90,15 @@ func disabledList(m map[string]bool) []string {
 func oneRun(t *testing.T, ch *Chooser, prop, tier string, disabled map[string]bool, tracing bool) *RunResult {
 	cfg, scen := BuildRun(ch, prop, tier, disabled)
 	cfg.Mutation = *fMutation
-	cfg.Known = map[string]bool{}
+	cfg.Known = map[string]string{}
 	for _, k := range strings.Split(*fKnown, ",") {
 		if k = strings.TrimSpace(k); k != "" {
-			cfg.Known[k] = true
+			parts := strings.SplitN(k, "@", 2)
+			if len(parts) == 2 {
+				cfg.Known[parts[0]] = parts[1]
+			} else {
+				cfg.Known[k] = ""
+			}
 		}
 	}
 	return RunBubble(t, ch, cfg, tracing, scen)
